@@ -492,15 +492,15 @@ def run_bounded(rep: Report, tier: str) -> None:
 
     # (A) searches on the base set, prime sizes (all objectives) and small sizes (ties, size-1 dims)
     items = [("primes", ci, v, ob) for ci in range(len(primes)) for v in VARIANTS for ob in OBJECTIVES]
-    items += [("small", ci, v, ob) for ci in range(len(small)) for v in ("plain", "sliced1") for ob in ("flops", "size")]
+    items += [("small", ci, v, ob) for ci in range(len(small)) for v in VARIANTS for ob in ("flops", "size", "combo")]
     stats["timeout"] = 0
     n = agg(list(pmap(work_search, items, chunk=2)), "search")
     rep.scope(
-        f"SliceFinder.search: {len(primes)} (network, tree) pairs (prime sizes) x {len(VARIANTS)} tree variants x 13 targets x allow_outer x 5 objectives x 3 temperatures x {len(_CTX['seeds'])} seeds x max_repeats {{1,4}}; same pairs with sizes 1-3 x 2 variants x 2 objectives",
+        f"SliceFinder.search: {len(primes)} (network, tree) pairs (prime sizes) x {len(VARIANTS)} tree variants x 13 targets x allow_outer x 5 objectives x 3 temperatures x {len(_CTX['seeds'])} seeds x max_repeats {{1,4}}; same pairs with sizes 1-3 x 4 variants x 3 objectives",
         n, exhaustive=(stats["timeout"] == 0),
         bound="base set of 3-5 tensor networks" + ("" if not stats["timeout"] else f"; {stats['timeout']} work items cut by the time budget"),
     )
-    nrand = 48 if quick else 400
+    nrand = 160 if quick else 800
     items = [("rand", k, VARIANTS[k % len(VARIANTS)], None) for k in range(nrand)]
     stats["timeout"] = 0
     n = agg(list(pmap(work_search, items, chunk=1)), "search")
